@@ -4,7 +4,7 @@ C01 — osu!mania file ↔ chart.  Property theorems about the executable model 
 (`harness/props/c01.py`) ties the model to reamber/osu/*.py on every run; `Generated/OsuTables.lean` ties the
 constants, defaults, key table and header template to the source.
 
-Parameters, not proved (DESIGN §5 K3): float rendering (`repr`, `:g`) and `unidecode` — the writer emits tokens;
+Parameters, not proved (DESIGN §5 K3): float rendering (`repr`) and `unidecode` — the writer emits tokens;
 hit / hold / sample lines contain integers only and are proved down to the characters.
 -/
 import Reamber.Lemmas.OsuLines
@@ -31,9 +31,9 @@ def modelKeyTable : List (String × String × String) :=
    ("SliderTickRate", "slider_tick_rate", "float")]
 
 def tokFlag : Tok → String
-  | .g _ => "g" | .uni _ => "uni" | _ => ""
+  | .num _ => "num" | .uni _ => "uni" | _ => ""
 
-/-- (literal prefix, "g" | "uni" | "", literal suffix) of one header line -/
+/-- (literal prefix, "num" | "uni" | "", literal suffix) of one header line -/
 def lineShape : TLine → String × String × String
   | [] => ("", "", "")
   | [.lit s] => (String.ofList s, "", "")
@@ -69,6 +69,7 @@ theorem consts_tie :
        ("OsuSv.metronome", 4), ("OsuSv.sample_set", 0), ("OsuSv.sample_set_index", 0), ("OsuSv.volume", 50),
        ("OsuSv.kiai", 0), ("OsuSample.volume", 70)] ∧
     Generated.Osu.metaKeyTable = modelKeyTable ∧
+    Generated.Osu.numHelperBody = "f = float(v); return str(int(f)) if f.is_integer() else repr(f)" ∧
     (writeMeta d0).map lineShape ++ [("*", "*", "")] = Generated.Osu.metaWriteShape := by
   decide +kernel
 
@@ -202,6 +203,73 @@ theorem meta_numeric_any (m : Meta) (v : Str) (rest : List Str) (q : Rat) (i : I
      · decide +kernel
      · decide +kernel
      · unfold metaAssign; simp [mFloat, mInt, h, bind, Except.bind, pure, Except.pure])
+
+/-- a header line `prefix + token` whose prefix is `key:` (possibly followed by a blank) -/
+theorem metaStep_lit_tok (R : Render) (m m' : Meta) (k v0 : Str) (pre : String) (t : Tok) (rest : List Str)
+    (hpre : pre.toList = k ++ ':' :: v0) (hk : ':' ∉ k) (hb : k ≠ kBackground) (hs : k ≠ kSamples)
+    (ha : metaAssign m k (some (v0 ++ R.tok t)) = .ok m') : metaStep m (R.line [L pre, t]) rest = .ok m' := by
+  have hl : R.line [L pre, t] = k ++ ':' :: (v0 ++ R.tok t) := by
+    simp [Render.line, L, Render.tok, hpre]
+  rw [hl]; exact metaStep_key_value m m' k _ rest hk hb hs ha
+
+/-- **numeric metadata round trip, no domain restriction** (after the repair of D30 the writer uses `_num`): the line
+that `write_meta_string_list` emits for a numeric attribute reads back to exactly that number — for every integral
+value with every renderer (the integer is printed by the model), for any other value under the assumption that
+`repr` of *that* value reads back (`float(repr(x)) == x`).  Shown for the eight float-read attributes and the three
+int-read ones (which hold integers). -/
+theorem meta_numeric_roundtrip (R : Render) (m : Meta) (q : Rat) (n : Int) (rest : List Str)
+    (hr : q.den ≠ 1 → readFloat (R.repr q) = .ok q) :
+    metaStep m (R.line [L "HPDrainRate:", .num q]) rest = .ok { m with hpDrainRate := q } ∧
+    metaStep m (R.line [L "CircleSize:", .num q]) rest = .ok { m with circleSize := q } ∧
+    metaStep m (R.line [L "OverallDifficulty:", .num q]) rest = .ok { m with overallDifficulty := q } ∧
+    metaStep m (R.line [L "ApproachRate:", .num q]) rest = .ok { m with approachRate := q } ∧
+    metaStep m (R.line [L "SliderMultiplier:", .num q]) rest = .ok { m with sliderMultiplier := q } ∧
+    metaStep m (R.line [L "SliderTickRate:", .num q]) rest = .ok { m with sliderTickRate := q } ∧
+    metaStep m (R.line [L "DistanceSpacing: ", .num q]) rest = .ok { m with distanceSpacing := q } ∧
+    metaStep m (R.line [L "TimelineZoom: ", .num q]) rest = .ok { m with timelineZoom := q } ∧
+    metaStep m (R.line [L "AudioLeadIn: ", .num (n : Rat)]) rest = .ok { m with audioLeadIn := (n : Rat) } ∧
+    metaStep m (R.line [L "BeatDivisor: ", .num (n : Rat)]) rest = .ok { m with beatDivisor := (n : Rat) } ∧
+    metaStep m (R.line [L "GridSize: ", .num (n : Rat)]) rest = .ok { m with gridSize := (n : Rat) } := by
+  have hf := readFloat_tok_num R q hr
+  have hi := readInt_tok_num R n
+  refine ⟨?_, ?_, ?_, ?_, ?_, ?_, ?_, ?_, ?_, ?_, ?_⟩
+  · exact metaStep_lit_tok R m _ "HPDrainRate".toList [] _ _ rest (by decide +kernel) (by decide +kernel)
+      (by decide +kernel) (by decide +kernel)
+      (by unfold metaAssign; simp [mFloat, hf, bind, Except.bind, pure, Except.pure])
+  · exact metaStep_lit_tok R m _ "CircleSize".toList [] _ _ rest (by decide +kernel) (by decide +kernel)
+      (by decide +kernel) (by decide +kernel)
+      (by unfold metaAssign; simp [mFloat, hf, bind, Except.bind, pure, Except.pure])
+  · exact metaStep_lit_tok R m _ "OverallDifficulty".toList [] _ _ rest (by decide +kernel) (by decide +kernel)
+      (by decide +kernel) (by decide +kernel)
+      (by unfold metaAssign; simp [mFloat, hf, bind, Except.bind, pure, Except.pure])
+  · exact metaStep_lit_tok R m _ "ApproachRate".toList [] _ _ rest (by decide +kernel) (by decide +kernel)
+      (by decide +kernel) (by decide +kernel)
+      (by unfold metaAssign; simp [mFloat, hf, bind, Except.bind, pure, Except.pure])
+  · exact metaStep_lit_tok R m _ "SliderMultiplier".toList [] _ _ rest (by decide +kernel) (by decide +kernel)
+      (by decide +kernel) (by decide +kernel)
+      (by unfold metaAssign; simp [mFloat, hf, bind, Except.bind, pure, Except.pure])
+  · exact metaStep_lit_tok R m _ "SliderTickRate".toList [] _ _ rest (by decide +kernel) (by decide +kernel)
+      (by decide +kernel) (by decide +kernel)
+      (by unfold metaAssign; simp [mFloat, hf, bind, Except.bind, pure, Except.pure])
+  · exact metaStep_lit_tok R m _ "DistanceSpacing".toList [' '] _ _ rest (by decide +kernel) (by decide +kernel)
+      (by decide +kernel) (by decide +kernel)
+      (by unfold metaAssign; simp [mFloat, readFloat_cons_space, hf, bind, Except.bind, pure, Except.pure])
+  · exact metaStep_lit_tok R m _ "TimelineZoom".toList [' '] _ _ rest (by decide +kernel) (by decide +kernel)
+      (by decide +kernel) (by decide +kernel)
+      (by unfold metaAssign; simp [mFloat, readFloat_cons_space, hf, bind, Except.bind, pure, Except.pure])
+  · exact metaStep_lit_tok R m _ "AudioLeadIn".toList [' '] _ _ rest (by decide +kernel) (by decide +kernel)
+      (by decide +kernel) (by decide +kernel)
+      (by unfold metaAssign; simp [mInt, readInt_cons_space, hi, bind, Except.bind, pure, Except.pure])
+  · exact metaStep_lit_tok R m _ "BeatDivisor".toList [' '] _ _ rest (by decide +kernel) (by decide +kernel)
+      (by decide +kernel) (by decide +kernel)
+      (by unfold metaAssign; simp [mInt, readInt_cons_space, hi, bind, Except.bind, pure, Except.pure])
+  · exact metaStep_lit_tok R m _ "GridSize".toList [' '] _ _ rest (by decide +kernel) (by decide +kernel)
+      (by decide +kernel) (by decide +kernel)
+      (by unfold metaAssign; simp [mInt, readInt_cons_space, hi, bind, Except.bind, pure, Except.pure])
+
+/-- non-vacuity: the two values of the former finding D30 come back exactly (an integer ≥ 10^6, with any renderer) -/
+example : (metaStep {} (intRender.line [L "AudioLeadIn: ", .num 1000000]) []).toOption.map (·.audioLeadIn) = some 1000000 := by
+  decide +kernel
 
 example : (metaStep {} "Title:a:b: c".toList []).toOption.map (·.title) = some "a:b: c".toList := by decide +kernel
 
